@@ -225,3 +225,12 @@ Proof.
     apply N.leb_le in Hs. destruct (N.eqb_spec (cls_expr html_var_cls (st_scope s) (st_expr s)) 4); [left; split; [reflexivity|exact V]|lia].
   - rewrite Hs in V. right. exact V.
 Qed.
+
+(* static ids of the real templates (regenerated): none looks like a type, namespace('-' scheme), sidebar or nesting-occurrence id,
+   they are pairwise distinct, and the two static ids of the modelled regions are among them *)
+From Verif Require Import HtmlThmIds.
+Theorem static_ids_ok :
+  forallb (fun e => id_kind (snd e) =? 0) html_static_ids = true
+  /\ nodup_str (map snd html_static_ids) = true
+  /\ forallb (fun x => str_in x (map snd html_static_ids)) page_ST = true.
+Proof. vm_compute. repeat split. Qed.
